@@ -131,6 +131,10 @@ class Check:
             self.violations.append(v)
         for k in res.get("known", []):
             self.known_hit.setdefault(k["id"], k.get("what", ""))
+        for n in res.get("notes", []):
+            self.extra.setdefault("notes", [])
+            if len(self.extra["notes"]) < 20:
+                self.extra["notes"].append(f"{str(res.get('instance'))[:160]}: {n}")
         if "sample" in res and len(self.samples) < 12:
             self.samples.append(jsonable(res["sample"]))
         if part:
